@@ -392,6 +392,21 @@ func C16(run *report.Run) {
 		bigC16(run, acc)
 		acc.flush(run)
 	}
+	{
+		// "no operation other than full iteration, diff of unrelated trees, or a height change reads a number
+		// of nodes proportional to the tree": diffs of related trees, with the judge of C15 (2*D+2 distinct reads)
+		acc := &pairAcc{relabel: "C16"}
+		if run.Thorough() {
+			tallC15(run, acc, 4200, 101)
+		} else {
+			tallC15(run, acc, 1100, 53)
+		}
+		heightC15(run, acc, 2, 8)
+		ruler := []uint8{0, 1, 0, 2, 0, 1, 0, 3, 0, 1, 0, 2, 0, 1, 0}
+		wideC15With(run, acc, 1, 2, ruler, 5)
+		wideC15With(run, acc, 3, 2, ruler, 5)
+		acc.flush(run)
+	}
 	run.Rule = ruleSingle + " on a cache-less recording store; oracle: Persist.Load calls per API call: LoadMast<=1, Clone<=1, Get<=height+1 (every key and absent probe, in every state), Insert/Delete<=2(height+1) when the height did not change"
 }
 
